@@ -46,7 +46,7 @@ SOURCES = [
 ]
 CLASSES = ["small_by_shell", "by_type", "high_l", "many_centres", "wide_coords", "no_optional", "unrestricted", "rohf",
            "virtual", "natural_orbitals", "ragged_lines", "ecp_edf", "ecp_no_edf", "all_optional", "shuffled_sections",
-           "no_spin_types", "exponent_styles"]
+           "no_spin_types", "exponent_styles", "gradient_reordered"]
 
 
 def _spec(rng, natom, nshell, lmax, nconmax):
@@ -116,6 +116,14 @@ def generate(rng, klass):
         spec = _spec(rng, natom, int(rng.integers(2, 6)), 2, 2)
         m["shuffle"] = True
         m["opt"]["grad"] = bool(rng.integers(2))
+    elif klass == "gradient_reordered":
+        # the gradient records carry the nucleus name as their key: listed in another order than <Nuclear Names>
+        natom = max(natom, 3)
+        spec = _spec(rng, natom, int(rng.integers(2, 6)), 2, 2)
+        m["opt"]["grad"] = True
+        m["grad_order"] = [int(i) for i in rng.permutation(natom)]
+        if m["grad_order"] == sorted(m["grad_order"]):
+            m["grad_order"] = m["grad_order"][::-1]
     elif klass == "no_spin_types":
         spec = _spec(rng, natom, int(rng.integers(2, 6)), 2, 2)
         m["spin_types"] = False
@@ -274,7 +282,7 @@ def _sections(m):
         ("Virial Ratio (-V/T)", [p["virial"]]),
     ]
     if m["opt"]["grad"]:
-        sec.append(("Nuclear Cartesian Energy Gradients", [f"{_name(m, i).strip():<10s} " + " ".join(p["gradient"][i]) for i in range(natom)]))
+        sec.append(("Nuclear Cartesian Energy Gradients", [f"{_name(m, i).strip():<10s} " + " ".join(p["gradient"][i]) for i in m.get("grad_order", range(natom))]))
     if m["opt"]["wvir"]:
         sec.append(("Nuclear Virial of Energy-Gradient-Based Forces on Nuclei, W", [p["wvirial"]]))
         sec.append(("Full Virial Ratio, -(V - W)/T", [p["full_virial"]]))
